@@ -281,7 +281,28 @@ def hostile_tower(n, pfx):
     return Piece(pfx, "\n".join(L))
 
 
-HOSTILE = ("hostile_strings", "hostile_arith", "hostile_tower")
+@family("hostile_doubling")
+def hostile_doubling(n, pfx):
+    """a chain of n statements s_i = s_(i-1) + s_(i-1) on a string constant: the VALUE has 2^(n+1) characters
+    for a program of n lines"""
+    L = ["def %sentry(p):" % pfx, "    s0 = \"ab\""]
+    for i in range(1, n + 1):
+        L.append("    s%d = s%d + s%d" % (i, i - 1, i - 1))
+    L += ["    r = p", "    sink(r)", "    return r", ""]
+    return Piece(pfx, "\n".join(L))
+
+
+@family("hostile_squaring")
+def hostile_squaring(n, pfx):
+    """a chain of n statements b_i = b_(i-1) * b_(i-1) on an integer constant (3^(2^n))"""
+    L = ["def %sentry(p):" % pfx, "    b0 = 3"]
+    for i in range(1, n + 1):
+        L.append("    b%d = b%d * b%d" % (i, i - 1, i - 1))
+    L += ["    r = p", "    sink(r)", "    return r", ""]
+    return Piece(pfx, "\n".join(L))
+
+
+HOSTILE = ("hostile_strings", "hostile_arith", "hostile_tower", "hostile_doubling", "hostile_squaring")
 
 # the C08 root cause seen from C13: string constants are pasted between double quotes and eval'ed, so a literal
 # can smuggle an expensive expression into the analyser
